@@ -83,18 +83,22 @@ def run_shard(spec, ctx):
                 if events and n_sub == 1:
                     continue
                 nodata_pos = None
-                if not events and kind != "mixture_logistic" and n_sub >= 2 and rng.random() < 0.25:
+                if kind != "mixture_logistic" and n_sub >= 2 and rng.random() < (0.25 if not events else 0.4):
                     # one subject (not the last one) whose visits carry no value at all, kept in the cohort (reader option drop_full_nan=False)
                     from leaspy.io.data import Data, Dataset
 
                     nodata_pos = int(rng.integers(0, n_sub - 1))
                     sid0 = list(dict.fromkeys(df["ID"]))[nodata_pos]
-                    feats_ = [c for c in df.columns if c not in ("ID", "TIME")]
+                    feats_ = [c for c in df.columns if c not in ("ID", "TIME", "EVENT_TIME", "EVENT_BOOL")]
+                    if events and rng.random() < 0.7:
+                        # that subject's event is observed, and early (before the population's reference time): the event term alone shapes its posterior
+                        df.loc[df["ID"] == sid0, "EVENT_BOOL"] = True
+                        df.loc[df["ID"] == sid0, "EVENT_TIME"] = float(df.loc[df["ID"] == sid0, "TIME"].max()) + 0.05
                     df.loc[df["ID"] == sid0, feats_] = np.nan
                     for c in feats_:  # every feature stays observed somewhere in the cohort
                         if df[c].isna().all():
                             df.loc[df.index[-1], c] = 0.5 if not binary else 1.0
-                    ds = Dataset(Data.from_dataframe(df, drop_full_nan=False))
+                    ds = Dataset(Data.from_dataframe(df, drop_full_nan=False, **({"data_type": "joint"} if events else {})))
                     ctx.count("cohorts_with_a_subject_without_any_value")
                 else:
                     ds = gen.to_dataset(df, events=events)
@@ -157,6 +161,25 @@ def run_shard(spec, ctx):
                     return out
 
                 algo._get_individual_parameters_patient = per_patient
+                orig_master = algo._get_individual_parameters_patient_master
+
+                def master(state, *, scaling, **kws_, ):
+                    try:
+                        x0 = scaling.scaling({n_: state.get_tensor_value(n_)[0] for n_ in state.dag.individual_variable_names})
+                        f0 = float(algo.obj_no_jac(np.array(x0, dtype=float), state.clone(disable_auto_fork=True), scaling))
+                    except Exception:
+                        f0 = None
+                    out = orig_master(state, scaling=scaling, **kws_)
+                    try:
+                        x1 = scaling.scaling({k_: torch.tensor(np.atleast_1d(np.asarray(v_, dtype=np.float32))) for k_, v_ in out.items()})
+                        f1 = float(algo.obj_no_jac(np.array(x1, dtype=float), state.clone(disable_auto_fork=True), scaling))
+                        if f0 is not None:
+                            rec.setdefault("scipy_outer", []).append((kws_.get("patient_id"), f0, f1))
+                    except Exception:
+                        pass
+                    return out
+
+                algo._get_individual_parameters_patient_master = master
             else:
                 holder = {}
                 orig_init = algo._initialize_algo
@@ -288,6 +311,12 @@ def run_shard(spec, ctx):
                         break
                 if bad:
                     continue
+                for pid, f0, f1 in rec.get("scipy_outer", []):
+                    ctx.count("scipy_objective_checks_at_the_outer_routine")
+                    if np.isfinite(f0) and not (f1 <= f0 + 1e-6 + 1e-5 * abs(f0)):
+                        ctx.violation("personalize/scipy/worse-than-start", f"subject {pid}: objective at the returned point {f1:.9g} > at the point its optimisation started from "
+                                      f"{f0:.9g} (measured around the per-subject routine)", case)
+                        break
                 for pid, f0, f1 in rec["scipy"]:
                     ctx.count("scipy_objective_checks")
                     ctx.evaluated()
